@@ -15,6 +15,9 @@ def main():
         sid = m["id"]
         if only and sid not in only:
             continue
+        if m.get("neutralised_by"):
+            print(f"{sid}: (no longer breaks the property since {m['neutralised_by']}) skipped")
+            continue
         want = [c for c, v in m.get("checks", {}).items() if v.get("detected")]
         if not want:
             print(f"{sid}: (recorded as not detected / out of domain) skipped")
